@@ -1,0 +1,9 @@
+//go:build verif
+
+package parser
+
+// VerifTokenMatcher returns the source of the token regular expression that Scan builds
+// for a delimiter list. It exists only in builds with the `verif` tag.
+func VerifTokenMatcher(delims []string) string {
+	return formTokenMatcher(delims).String()
+}
